@@ -623,7 +623,13 @@ impl Corpus {
         let v = if k % 2 == 1 {
             let (t, cat, planted) = self.get(id - 1);
             let mut rng = Rng::derive(self.seed, &[ENGINE_A, 0x51B1, id as u64]);
-            (Arc::from(sibling(&t, &mut rng)), cat, planted)
+            // its own stream, so that the siblings it leaves alone are what they were before
+            let mut lay = Rng::derive(self.seed, &[ENGINE_A, 0x1A70, id as u64]);
+            if lay.chance(1, 5) {
+                (Arc::from(layout_sibling(&t, &mut lay)), cat, planted)
+            } else {
+                (Arc::from(sibling(&t, &mut rng)), cat, planted)
+            }
         } else {
             let mut rng = Rng::derive(self.seed, &[ENGINE_A, 0x7E57, id as u64]);
             if rng.chance(1, 10) && !self.fixed.is_empty() {
@@ -660,6 +666,144 @@ impl Corpus {
         self.cache.insert(id, v.clone());
         v
     }
+}
+
+/// A sibling that differs from `text` in layout only (line endings, trailing blanks, final
+/// newline, blank lines, spacing between tokens, comments): the token sequence is the same, the
+/// emitted tables are the same, only the source hash in the header (and error positions) differ.
+/// A memo whose key normalises layout away hands one text the other's result.
+fn layout_sibling(text: &str, rng: &mut Rng) -> String {
+    let lines: Vec<&str> = text.split_inclusive('\n').collect();
+    for _ in 0..8 {
+        let out: String = match rng.below(8) {
+            0 => {
+                if text.contains("\r\n") {
+                    text.replace("\r\n", "\n")
+                } else {
+                    text.replace('\n', "\r\n")
+                }
+            }
+            1 => {
+                // trailing blank(s) on one line or on every line
+                let all = rng.chance(1, 3);
+                let pick = if lines.is_empty() { 0 } else { rng.below(lines.len()) };
+                let pad = if rng.chance(1, 4) { "\t" } else { " " };
+                lines
+                    .iter()
+                    .enumerate()
+                    .map(|(i, l)| {
+                        if (all || i == pick) && l.ends_with('\n') {
+                            let body = l.trim_end_matches('\n').trim_end_matches('\r');
+                            format!("{}{}{}", body, pad, &l[body.len()..])
+                        } else {
+                            l.to_string()
+                        }
+                    })
+                    .collect()
+            }
+            2 => {
+                if let Some(t) = text.strip_suffix("\r\n").or_else(|| text.strip_suffix('\n')) {
+                    t.to_string()
+                } else {
+                    format!("{}\n", text)
+                }
+            }
+            3 => {
+                let at = rng.below(lines.len() + 1);
+                let mut o = String::new();
+                for (i, l) in lines.iter().enumerate() {
+                    if i == at {
+                        o.push('\n');
+                    }
+                    o.push_str(l);
+                }
+                if at == lines.len() {
+                    if !o.ends_with('\n') && !o.is_empty() {
+                        o.push('\n');
+                    }
+                    o.push('\n');
+                }
+                o
+            }
+            4 => {
+                // a comment line at the end or at the front
+                if rng.chance(1, 2) {
+                    let sep = if text.ends_with('\n') || text.is_empty() { "" } else { "\n" };
+                    format!("{}{}// rev {}\n", text, sep, rng.below(90) + 10)
+                } else {
+                    format!("// rev {}\n{}", rng.below(90) + 10, text)
+                }
+            }
+            5 => {
+                // one blank between tokens doubled (outside attributes and comments: a line that
+                // starts neither, split at its first blank after a non-blank)
+                let cands: Vec<usize> = (0..lines.len())
+                    .filter(|i| {
+                        let t = lines[*i].trim_start();
+                        !t.starts_with("//") && !t.starts_with('#') && !t.contains("//") && t.trim_end().contains(' ')
+                    })
+                    .collect();
+                if cands.is_empty() {
+                    continue;
+                }
+                let li = cands[rng.below(cands.len())];
+                let l = lines[li];
+                let lead = l.len() - l.trim_start().len();
+                let pos = lead + l.trim_start().find(' ').unwrap_or(0);
+                let mut o = String::new();
+                for (i, x) in lines.iter().enumerate() {
+                    if i == li {
+                        o.push_str(&x[..pos]);
+                        o.push(' ');
+                        o.push_str(&x[pos..]);
+                    } else {
+                        o.push_str(x);
+                    }
+                }
+                o
+            }
+            6 => {
+                // indentation of one indented line: four blanks <-> one tab
+                let cands: Vec<usize> =
+                    (0..lines.len()).filter(|i| lines[*i].starts_with("    ") || lines[*i].starts_with('\t')).collect();
+                if cands.is_empty() {
+                    continue;
+                }
+                let li = cands[rng.below(cands.len())];
+                let mut o = String::new();
+                for (i, x) in lines.iter().enumerate() {
+                    if i == li {
+                        if let Some(r) = x.strip_prefix("    ") {
+                            o.push('\t');
+                            o.push_str(r);
+                        } else {
+                            o.push_str("    ");
+                            o.push_str(&x[1..]);
+                        }
+                    } else {
+                        o.push_str(x);
+                    }
+                }
+                o
+            }
+            _ => {
+                // the text of an existing comment changed by one character
+                if let Some(p) = text.find("// ") {
+                    let mut o = String::new();
+                    o.push_str(&text[..p + 3]);
+                    o.push('~');
+                    o.push_str(&text[p + 3..]);
+                    o
+                } else {
+                    continue;
+                }
+            }
+        };
+        if out != text {
+            return out;
+        }
+    }
+    format!("{}\n", text)
 }
 
 fn sibling(text: &str, rng: &mut Rng) -> String {
